@@ -31,17 +31,23 @@ def write_pickle_opacity(directory, stem, wn, temps, press_pa, xsec_cm2, bar_fac
     return fn
 
 
+def _units_attr(unit, unit_as):
+    """The 'units' attribute as h5py stores a Python str (variable-length UTF-8) or a bytes object (fixed ASCII)."""
+    return np.bytes_(unit) if unit_as == 'bytes' else unit
+
+
 def write_hdf5_opacity(directory, stem, mol_name, wn, temps, press_pa, xsec_cm2, unit='bar', unit_factor=(100000, 1),
-                       ext='.h5', name_as='bytes'):
+                       ext='.h5', name_as='bytes', stored_p=None, unit_as='str'):
     """HDF5 cross-section file: datasets bin_edges (the wavenumber grid), t, p (attribute 'units'),
-    xsecarr[P, T, wn] (cm^2), mol_name."""
+    xsecarr[P, T, wn] (cm^2), mol_name.  stored_p: the numbers of the 'p' dataset as given by the
+    specification (instead of press_pa / unit_factor)."""
     import h5py
     fn = os.path.join(directory, stem + ext)
     with h5py.File(fn, 'w') as f:
         f.create_dataset('bin_edges', data=np.asarray(wn, dtype=float))
         f.create_dataset('t', data=np.asarray(temps, dtype=float))
-        p = f.create_dataset('p', data=np.asarray(press_pa, dtype=float) / _f(unit_factor))
-        p.attrs['units'] = unit
+        p = f.create_dataset('p', data=np.asarray(stored_p, dtype=float) if stored_p is not None else np.asarray(press_pa, dtype=float) / _f(unit_factor))
+        p.attrs['units'] = _units_attr(unit, unit_as)
         f.create_dataset('xsecarr', data=np.asarray(xsec_cm2, dtype=float))
         if name_as == 'bytes':
             f.create_dataset('mol_name', data=np.bytes_(mol_name))
@@ -112,7 +118,8 @@ def write_pickle_ktable(directory, stem, name, wn, temps, press_pa, kcoeff_cm2, 
     return fn
 
 
-def write_hdf5_ktable(directory, stem, wn, temps, press_pa, kcoeff_cm2, weights, unit='bar', unit_factor=(100000, 1), ext='.h5'):
+def write_hdf5_ktable(directory, stem, wn, temps, press_pa, kcoeff_cm2, weights, unit='bar', unit_factor=(100000, 1), ext='.h5',
+                      stored_p=None, unit_as='str'):
     """HDF5 k-table (ExoMol layout): bin_centers, ngauss, t, p (attribute 'units'), kcoeff[P, T, wn, g], weights;
     molecule = sanitised part of the file stem before the first '_'."""
     import h5py
@@ -121,8 +128,8 @@ def write_hdf5_ktable(directory, stem, wn, temps, press_pa, kcoeff_cm2, weights,
         f.create_dataset('bin_centers', data=np.asarray(wn, dtype=float))
         f.create_dataset('ngauss', data=len(weights))
         f.create_dataset('t', data=np.asarray(temps, dtype=float))
-        p = f.create_dataset('p', data=np.asarray(press_pa, dtype=float) / _f(unit_factor))
-        p.attrs['units'] = unit
+        p = f.create_dataset('p', data=np.asarray(stored_p, dtype=float) if stored_p is not None else np.asarray(press_pa, dtype=float) / _f(unit_factor))
+        p.attrs['units'] = _units_attr(unit, unit_as)
         f.create_dataset('kcoeff', data=np.asarray(kcoeff_cm2, dtype=float))
         f.create_dataset('weights', data=np.asarray(weights, dtype=float))
     return fn
